@@ -22,7 +22,7 @@ func cmdRot(args []string) {
 	w := newShardWriter(*out, *shards)
 	ms := parseInts(*msFlag)
 	st := &battleStats{}
-	pairs, wrapped, bigoff := 0, 0, 0
+	pairs, wrapped, bigoff, reused := 0, 0, 0, 0
 	for b := 0; b < *n; b++ {
 		cfg := genCfg(r, ms)
 		nw := 1 + r.Intn(3)
@@ -36,14 +36,21 @@ func cmdRot(args []string) {
 		for _, l := range la {
 			w.line(l)
 		}
+		aState, aFlags := "", ""
+		if a != nil {
+			aState, aFlags = a.fullState(), aliveJSON(a)
+		}
 		// shifts: 1, M-len, M-1, random
 		ks := []int{1, cfg.M - len(ws[0].code), cfg.M - 1, r.Intn(cfg.M)}
-		for _, k := range ks[:1+r.Intn(len(ks))] {
+		for idx, k := range ks[:1+r.Intn(len(ks))] {
 			k = norm(k, cfg.M)
-			j := r.Intn(3)
+			j := r.Intn(4)
 			o2 := make([]int, len(offs))
 			for i := range offs {
 				o2[i] = (offs[i]+k)%cfg.M + j*cfg.M
+				if j == 3 {
+					o2[i] = hugeMark + (offs[i]+k)%cfg.M // the largest 64-bit offset in that residue class
+				}
 				if (offs[i]+k)%cfg.M+len(ws[i].code) > cfg.M {
 					wrapped++
 				}
@@ -51,28 +58,43 @@ func cmdRot(args []string) {
 			if j > 0 {
 				bigoff++
 			}
-			bb, lb := runRecorded(r, cfg, ws, o2, st)
+			var bb *battle
+			var lb []string
+			ru := 0
+			if a != nil && idx == 0 && r.Intn(3) == 0 {
+				ru = 1
+				// the shifted battle on the SAME simulator, reset and respawned (placement independence of a reused
+				// simulator); its lines continue the trace of the first battle
+				bb = a2reuse(a, ws, o2, st, &lb)
+				reused++
+			} else {
+				bb, lb = runRecorded(r, cfg, ws, o2, st)
+			}
 			for _, l := range lb {
 				w.line(l)
 			}
-			if a != nil && bb != nil {
-				w.line(rotEvent(cfg, ws, offs, k, j, a, bb))
+			if aState != "" && bb != nil {
+				w.line(rotEventS(cfg, ws, offs, k, j, aState, bb.fullState(), aFlags, aliveJSON(bb), ru))
 				pairs++
 			}
 		}
 		w.nextUnit()
 	}
 	w.close()
-	fmt.Printf(`{"battles":%d,"events":%d,"cycles":%d,"pairs":%d,"wrapped_loads":%d,"offsets_beyond_core":%d,"panics":%d}`+"\n", st.battles, st.events, st.cycles, pairs, wrapped, bigoff, st.panics)
+	fmt.Printf(`{"battles":%d,"events":%d,"cycles":%d,"pairs":%d,"wrapped_loads":%d,"offsets_beyond_core":%d,"reused_simulator":%d,"panics":%d}`+"\n", st.battles, st.events, st.cycles, pairs, wrapped, bigoff, reused, st.panics)
 }
 
 func rotEvent(cfg simCfg, ws []wdata, offs []int, k, j int, a, bb *battle) string {
+	return rotEventS(cfg, ws, offs, k, j, a.fullState(), bb.fullState(), aliveJSON(a), aliveJSON(bb), 0)
+}
+
+func rotEventS(cfg simCfg, ws []wdata, offs []int, k, j int, aState, bState, aFlags, bFlags string, reuse int) string {
 	var wj []string
 	for _, w := range ws {
 		wj = append(wj, fmt.Sprintf(`{"code":%s,"start":%d}`, insListJSON(w.code), w.start))
 	}
-	return fmt.Sprintf(`{"ev":"rot","k":%d,"j":%d,"a":%s,"b":%s,"aflags":%s,"bflags":%s,"cfg":{"M":%d,"P":%d,"C":%d,"RL":%d,"WL":%d},"ws":[%s],"offs":%s}`,
-		k, j, a.fullState(), bb.fullState(), aliveJSON(a), aliveJSON(bb), cfg.M, cfg.P, cfg.C, cfg.RL, cfg.WL, strings.Join(wj, ","), intsJSON(offs))
+	return fmt.Sprintf(`{"ev":"rot","k":%d,"j":%d,"a":%s,"b":%s,"aflags":%s,"bflags":%s,"cfg":{"M":%d,"P":%d,"C":%d,"RL":%d,"WL":%d},"ws":[%s],"offs":%s,"reuse":%d}`,
+		k, j, aState, bState, aFlags, bFlags, cfg.M, cfg.P, cfg.C, cfg.RL, cfg.WL, strings.Join(wj, ","), intsJSON(offs), reuse)
 }
 
 // "rot-replay": re-run both battles of recorded rot events from their inputs
@@ -101,17 +123,56 @@ func cmdRotReplay(args []string) {
 		o2 := make([]int, len(offs))
 		for i := range offs {
 			o2[i] = (offs[i]+k)%cfg.M + j*cfg.M
+			if j == 3 {
+				o2[i] = hugeMark + (offs[i]+k)%cfg.M
+			}
 		}
-		bb, lb := runRecorded(r, cfg, ws, o2, st)
-		for _, l := range append(la, lb...) {
+		for _, l := range la {
 			w.line(l)
 		}
-		if a != nil && bb != nil {
-			w.line(rotEvent(cfg, ws, offs, k, j, a, bb))
+		if a == nil {
+			continue
+		}
+		aState, aFlags := a.fullState(), aliveJSON(a)
+		var bb *battle
+		var lb []string
+		if jint(e["reuse"]) == 1 {
+			bb = a2reuse(a, ws, o2, st, &lb)
+		} else {
+			bb, lb = runRecorded(r, cfg, ws, o2, st)
+		}
+		for _, l := range lb {
+			w.line(l)
+		}
+		if bb != nil {
+			w.line(rotEventS(cfg, ws, offs, k, j, aState, bb.fullState(), aFlags, aliveJSON(bb), jint(e["reuse"])))
 		}
 	}
 	w.close()
 	fmt.Println(`{"replayed":1}`)
+}
+
+// a2reuse continues the trace of battle a: Reset, spawn at the shifted offsets, step to the end.
+// The final state of a must have been captured by the caller before (fullState is taken from the returned battle).
+func a2reuse(a *battle, ws []wdata, offs []int, st *battleStats, lines *[]string) *battle {
+	*lines = append(*lines, a.reset())
+	for i := range ws {
+		if offs[i] >= hugeMark {
+			*lines = append(*lines, a.spawnHuge(i, offs[i]-hugeMark))
+		} else {
+			*lines = append(*lines, a.spawn(i, offs[i]))
+		}
+	}
+	for a.inProgress() {
+		line, _, pan := a.cycle()
+		*lines = append(*lines, line)
+		st.cycles++
+		if pan != "" {
+			st.panics++
+			return nil
+		}
+	}
+	return a
 }
 
 func aliveJSON(b *battle) string {
@@ -123,6 +184,9 @@ func aliveJSON(b *battle) string {
 	}
 	return intsJSON(fl)
 }
+
+// offsets at or above hugeMark stand for "the largest 64-bit offset congruent to (value - hugeMark)"
+const hugeMark = 1 << 40
 
 // runRecorded records a stepped battle and returns the battle for its final state
 func runRecorded(r *rand.Rand, cfg simCfg, ws []wdata, offs []int, st *battleStats) (*battle, []string) {
@@ -140,7 +204,11 @@ func runRecorded(r *rand.Rand, cfg simCfg, ws []wdata, offs []int, st *battleSta
 		lines = append(lines, b.add(w))
 	}
 	for i := range ws {
-		lines = append(lines, b.spawn(i, offs[i]))
+		if offs[i] >= hugeMark {
+			lines = append(lines, b.spawnHuge(i, offs[i]-hugeMark))
+		} else {
+			lines = append(lines, b.spawn(i, offs[i]))
+		}
 	}
 	for b.inProgress() {
 		line, _, pan := b.cycle()
@@ -242,6 +310,10 @@ func cmdConfigs(args []string) {
 					panics++
 					break
 				}
+			}
+			if !b.inProgress() { // stepping once more after the end must change nothing (and never exceed the cycle limit)
+				line, _, _ := b.cycle()
+				w.line(line)
 			}
 			battles++
 		}
